@@ -44,3 +44,31 @@ package dns64
 //@   ensures result1 && maskOnes(prefix.Mask) < 96 ==> addr[8] == 0
 //@
 //@ axiom valid_prefix_bits: forall b int :: {validPrefixBits[b]} validPrefixBits[b] <==> okBits(b)
+//@
+//@ # ---- C20: the AAAA negative TTL is min(SOA TTL, SOA MINIMUM>0) of the first SOA in the authority section
+//@ pred rrsWF(rs []dns.RR) := forall i int :: {rs[i]} 0 <= i && i < len(rs) ==> rs[i] != nil && (dyntype(rs[i], *dns.SOA) ==> as(rs[i], *dns.SOA) != nil)
+//@ spec soaNeg(s *dns.SOA) uint32 := ite(s.Minttl > 0 && s.Minttl < s.Hdr.Ttl, s.Minttl, s.Hdr.Ttl)
+//@
+//@ func negativeAAAATTL
+//@   requires m != nil && rrsWF(m.Ns)
+//@   modifies nothing
+//@   ensures (forall i int :: {m.Ns[i]} 0 <= i && i < len(m.Ns) ==> !dyntype(m.Ns[i], *dns.SOA)) ==> result == 0
+//@   ensures forall i int :: {m.Ns[i]} 0 <= i && i < len(m.Ns) && dyntype(m.Ns[i], *dns.SOA) && (forall j int :: {m.Ns[j]} 0 <= j && j < i ==> !dyntype(m.Ns[j], *dns.SOA)) ==> result == soaNeg(as(m.Ns[i], *dns.SOA))
+//@   loop 1 invariant 0 <= rangeidx && rangeidx <= len(m.Ns)
+//@   loop 1 invariant forall j int :: {m.Ns[j]} 0 <= j && j < rangeidx ==> !dyntype(m.Ns[j], *dns.SOA)
+//@
+//@ # ---- C20: a SERVFAIL counts as a DNSSEC validation failure iff ANY of its EDE options carries one of the DNSSEC codes
+//@ pred dnssecEDE(code uint16) := code == dns.ExtendedErrorCodeUnsupportedDNSKEYAlgorithm || code == dns.ExtendedErrorCodeUnsupportedDSDigestType
+//@    || code == dns.ExtendedErrorCodeUnsupportedNSEC3IterValue || code == dns.ExtendedErrorCodeDNSSECIndeterminate || code == dns.ExtendedErrorCodeDNSBogus
+//@    || code == dns.ExtendedErrorCodeSignatureExpired || code == dns.ExtendedErrorCodeSignatureNotYetValid || code == dns.ExtendedErrorCodeDNSKEYMissing
+//@    || code == dns.ExtendedErrorCodeRRSIGsMissing || code == dns.ExtendedErrorCodeNoZoneKeyBitSet || code == dns.ExtendedErrorCodeNSECMissing
+//@ pred optsWF(os []dns.EDNS0) := forall i int :: {os[i]} 0 <= i && i < len(os) ==> (dyntype(os[i], *dns.EDNS0_EDE) ==> as(os[i], *dns.EDNS0_EDE) != nil)
+//@ pred hasDnssecEDE(os []dns.EDNS0) := exists i int :: {os[i]} 0 <= i && i < len(os) && dyntype(os[i], *dns.EDNS0_EDE) && dnssecEDE(as(os[i], *dns.EDNS0_EDE).InfoCode)
+//@
+//@ func isDNSSECFailure
+//@   requires m != nil ==> (msgOPT(m) != nil ==> optsWF(msgOPT(m).Option))
+//@   modifies nothing
+//@   ensures result ==> m != nil && m.Rcode == dns.RcodeServerFailure && msgOPT(m) != nil && hasDnssecEDE(msgOPT(m).Option)
+//@   ensures m != nil && m.Rcode == dns.RcodeServerFailure && msgOPT(m) != nil && hasDnssecEDE(msgOPT(m).Option) ==> result
+//@   loop 1 invariant 0 <= rangeidx && rangeidx <= len(opt.Option)
+//@   loop 1 invariant forall j int :: {opt.Option[j]} 0 <= j && j < rangeidx ==> !(dyntype(opt.Option[j], *dns.EDNS0_EDE) && dnssecEDE(as(opt.Option[j], *dns.EDNS0_EDE).InfoCode))
